@@ -32,7 +32,7 @@ import strax.processors.threaded_mailbox as tmm  # noqa: E402
 from lib import sched as S  # noqa: E402
 
 ID = "C13"
-LEAN_MODULES = ["StraxModel.Props.C13", "StraxModel.Props.C13Net"]
+LEAN_MODULES = ["StraxModel.Props.C13", "StraxModel.Props.C13Net", "StraxModel.Props.C13Dag"]
 TRUSTED = [
     "cooperative scheduler checks/lib/sched.py (replaces `threading` inside strax.mailbox and the thread pool of "
     "strax.processors.threaded_mailbox: real threads, one runs at a time, yield points at lock acquire / Condition.wait / "
@@ -408,9 +408,10 @@ def run_pipeline(case, n):
     holder = {}
 
     class Proc(strax.ThreadedMailboxProcessor):
-        def __init__(self, *a, **kw):
-            super().__init__(*a, **kw)
+        def __init__(self, components, *a, **kw):
+            super().__init__(components, *a, **kw)
             holder["proc"] = self
+            obs["components"] = describe_components(self.components, kw)
             instrument(self)
 
     def gate_probe(m, who):
@@ -532,6 +533,41 @@ def run_pipeline(case, n):
 
 
 # ============================================================================= observations -> canonical line, oracle
+def describe_components(comps, kw):
+    """the ProcessorComponents the real processor was given, in the argument format of the driver ops `c06.wire` /
+    `c13.path` (dict orders as they are)"""
+    insts = []
+    for p in comps.plugins.values():
+        if not any(p is q for q in insts):
+            insts.append(p)
+    keys = [(d, next(i for i, q in enumerate(insts) if q is p)) for d, p in comps.plugins.items()]
+    defs = [dict(cls=p.__class__.__name__, provides=list(p.provides), depends_on=list(p.depends_on),
+                 max_messages=p.max_messages) for p in insts]
+    return dict(defs=defs, keys=keys, savers=[(d, len(v)) for d, v in comps.savers.items()], loaders=list(comps.loaders),
+                targets=list(comps.targets), allow_lazy=int(bool(kw.get("allow_lazy", True))), max_workers=kw.get("max_workers"),
+                max_messages=kw.get("max_messages", 4))
+
+
+def op_path(case, comp, n):
+    if comp is None or comp["loaders"]:
+        return None
+    defs = ";".join(f"{d['cls']}|{'.'.join(d['provides'])}|{'.'.join(d['depends_on'])}|"
+                    f"{'-' if d['max_messages'] is None else d['max_messages']}|{n}" for d in comp["defs"]) or "-"
+    plugins = ",".join(f"{k}={i}" for k, i in comp["keys"]) or "-"
+    savers = ",".join(f"{d}={k}" for d, k in comp["savers"]) or "-"
+    mw = "-" if comp["max_workers"] is None else comp["max_workers"]
+    return f"c13.path {comp['allow_lazy']} {mw} {comp['max_messages']} {','.join(comp['targets'])} - {defs} {plugins} {savers}"
+
+
+def path_line(case):
+    """what `dag_rest_bound` should say for this graph: its hypothesis holds on the wired net, the consumer is the only
+    reader of its subscription, the bound along the cheapest path is 2 * sum(max_messages) (one-to-one plugins: lag 1)"""
+    w = wiring(case)
+    path = path_mailboxes(case)
+    B = 2 * sum(w[m]["cap"] for m in path)
+    return f"ok hyp=1 sole=1 B={B} lagR=0 path={'>'.join(path)} lags={','.join('1' for _ in path[1:])}"
+
+
 def is_chain(case):
     return case["graph"]["shape"].startswith("chain")
 
@@ -838,6 +874,22 @@ def run(ctx):
                      nontrivial=lambda c, out: all(o["e_quiet"] is not None and o["got"] == o["n"] for o in res2[c["i"]]),
                      rule=RULE_REST, branch=branch_rest)
 
+    # 2b. the same graphs, wired by c06's `wire` from the components the REAL processor was given: the hypothesis of
+    #     `dag_rest_bound` holds on the wired net and its bound is the one the oracle above used
+    pcases = []
+    seen = set()
+    for c in cases:
+        comp = res2[c["i"]][0].get("components")
+        op = op_path(c, comp, c["n"])
+        if op is None or op in seen:
+            continue
+        seen.add(op)
+        pcases.append(dict(graph=c["graph"], cap=c["cap"], lazy=c["lazy"], workers=c.get("workers", 0), n=c["n"], op=op))
+    ctx.correspond("graph/path-model", pcases, path_line, lambda c: c["op"], None,
+                   nontrivial=lambda c, out: True,
+                   rule="every distinct (graph, capacities, mode, savers) of pipeline/rest: components of the real processor -> "
+                        "c06's `wire` -> cheapest path; compared: pathOk holds, consumer is sole reader, pathBound, the path",
+                   branch=lambda c, out: f"{c['graph']['shape']}/{'lazy' if c['lazy'] else 'eager'}")
     ctx.note(f"phase pipeline/rest: {time.time() - t0:.1f}s")
     t0 = time.time()
     # 3. stand-alone mailbox: the gate condition at every fetch of a lazy mailbox (also diffed with the mailbox model)
